@@ -6,6 +6,7 @@ import (
 	"context"
 	"errors"
 	"fmt"
+	modbus "github.com/aldas/go-modbus-client"
 	"math/rand"
 	"net"
 	"time"
@@ -185,6 +186,14 @@ func handler(dev *simdev.Device, modeOf func(tid uint16) string) server.ModbusHa
 			return nil, e
 		case "generic-error":
 			return nil, errGeneric
+		case "mutate-then-error":
+			// a gateway-style handler: it rewrites the addressing of the request value it was given, then fails
+			libx.Readdress(req, tid^0x5a5a, b[6]^0x33)
+			return nil, errGeneric
+		case "foreign-exception":
+			// the handler forwarded the request to a downstream device (another unit, another transaction id) and returns
+			// the error its client got there: an error that wraps the downstream exception
+			return nil, &modbus.ClientError{Err: &packet.ErrorResponseTCP{TransactionID: tid ^ 0x0f0f, UnitID: b[6] ^ 0x21, Function: b[7] ^ 0x01, Code: packet.ErrIllegalDataAddress}}
 		case "slow":
 			time.Sleep(90 * time.Millisecond) // longer than the server's default write timeout: the reply is still owed
 		case "panic-string":
@@ -453,7 +462,7 @@ func runSeq(c *Case, r *mon.Rec, rng *rand.Rand) {
 		used[f.tid] = true
 		f.mode = "dev"
 		if f.class == "valid" {
-			f.mode = []string{"dev", "dev", "typed-error", "generic-error", "panic-string", "panic-error", "panic-nilmap", "slow"}[rng.Intn(8)]
+			f.mode = []string{"dev", "dev", "typed-error", "generic-error", "panic-string", "panic-error", "panic-nilmap", "slow", "mutate-then-error", "foreign-exception"}[rng.Intn(10)]
 		}
 		modes[f.tid] = f.mode
 		steps = append(steps, step{f: f})
